@@ -74,6 +74,8 @@ package controllers
 //@ define asPod(o ref) *corev1.Pod = unbox(o, "*corev1.Pod")
 //@ func isCompletionEvent
 //@   props C17
+//@   requires typeis(oldObject, "*corev1.Pod") ==> asPod(oldObject) != nil     // events never carry typed-nil pods
+//@   requires typeis(newObject, "*corev1.Pod") ==> asPod(newObject) != nil
 //@   pure
 //@   ensures result == (typeis(oldObject, "*corev1.Pod") && typeis(newObject, "*corev1.Pod") && asPod(oldObject).Status.Phase != asPod(newObject).Status.Phase && (asPod(newObject).Status.Phase == "Failed" || asPod(newObject).Status.Phase == "Succeeded"))
 //@ end
